@@ -10,7 +10,8 @@ Driver for C18.  Protocol (one case):
   tick <secs>                                                        the pairing clock advances
   req id=<n> type=<hex> auth=<none|s<hex>> eff=<0|1> nonce=<-|hex> params=<missing|nonobj|obj>
       [k=<key hex>:<n|t|f|o|s<hex>>:<good 0|1>]... raw=<hex>         a line that parses as a request
-  line <notutf8|notjson|notreq> raw=<hex>                            any other line
+  line <notjson|notreq> [lossy=1] raw=<hex>                          any other line (classified on the
+                                                                     lossily decoded text, as the transport does)
   claimcheck <code hex>                                              direct PairingStore::claim(code, None)
   impl ...                                                           (ignored here)
   end
@@ -71,7 +72,6 @@ def showFx (fx : List Probe) : String :=
   if names.isEmpty then "-" else joinWith "," names
 
 def showReply : Reply → String
-  | .closed => "closed"
   | .invalid => "id=0 invalid"
   | .unauthorized id => s!"id={id} unauthorized"
   | .forbidden id r => s!"id={id} forbidden:{r.name}"
@@ -152,8 +152,7 @@ def stepLine (st : St) (line : String) : St × Option String :=
     match st.ep with
     | some ep =>
       let l? : Option Line :=
-        if kind = "notutf8" then some .notUtf8
-        else if kind = "notjson" then some .notJson
+        if kind = "notjson" then some .notJson
         else if kind = "notreq" then some .notRequest
         else none
       match l? with
